@@ -204,15 +204,19 @@ def check_symmetry(desc):
 CHECKS = {"hypersingular": check_hypersingular, "efield": check_efield, "symmetry": check_symmetry}
 
 
-def shards(tier):
-    n = 1 if tier == "quick" else 8
+def shards(tier, seed=1):
+    from vlib.pbt import rot
+
+    q = tier == "quick"
+    n = 1 if q else 8
     out = []
-    for fam in ("laplace", "helmholtz", "modified"):
-        out.append({"check": "hypersingular", "fam": fam, "examples": 14 * n, "budget_s": 140 * n})
-    for rep in range(2):
-        out.append({"check": "efield", "examples": 10 * n, "budget_s": 150 * n, "rep": rep})
-    for op in ("E", "M"):
-        out.append({"check": "symmetry", "op": op, "examples": 4 * n, "budget_s": 150 * n})
+    fams = ["helmholtz", "laplace", "modified"]
+    for fam in (rot(fams, seed, 2) if q else fams):
+        out.append({"check": "hypersingular", "fam": fam, "examples": 14 * n, "budget_s": 260 * n})
+    for rep in range(1 if q else 3):
+        out.append({"check": "efield", "examples": 10 * n, "budget_s": 300 * n, "rep": rep})
+    for op in (rot(["E", "M"], seed, 1) if q else ["E", "M"]):
+        out.append({"check": "symmetry", "op": op, "examples": 4 * n, "budget_s": 300 * n})
     return out
 
 
@@ -260,4 +264,7 @@ def strategy(spec):
 
 
 def required_labels(tier):
-    return ["hypersingular", "laplace", "helmholtz", "modified", "efield", "complex_k", "segment", "symmetry", "constants_annihilated", "open", "closed"]
+    return ["hypersingular", "efield", "symmetry"] if tier == "quick" else [
+        "hypersingular", "laplace", "helmholtz", "modified", "efield", "complex_k", "segment", "symmetry", "constants_annihilated", "open", "closed"]
+
+
